@@ -303,7 +303,7 @@ def mode_replay(vec, outp):
         v = json.loads(ln)
         conds = v.get("conds", [])
         ev = apply_rule(out, "tlc", v["rule"], v.get("ps", []), v.get("pe", []), v["e"], conds, {"step": v.get("step", 0)})
-        for j in ([v["e"]] if v.get("step", 0) == 0 else []) + ([ev["r"]] if ev and ev.get("outcome") == "ok" else []):
+        for j in ([v["e"]] if v.get("step", 0) == 0 else []) + ([ev["r"]] if ev and ev.get("outcome") == "ok" and v.get("step", 0) <= 1 else []):
             k = json.dumps([j, conds])
             if k not in seen_norm:
                 seen_norm.add(k)
@@ -406,15 +406,22 @@ class Gen:
         if k < 0.78:
             a, b = self.integral(params, 2), self.integral(params, 1)
             return E.Op(r.choice(["+", "-", "*"]), a, b)
-        if k < 0.84:
+        if k < 0.82:
             return E.Op("*", self.polyexpr(params, 1), self.integral(params, 2))
-        if k < 0.90:   # nested
+        if k < 0.87:   # nested
             x, y = "x", "y"
             inner = E.Integral(y, self.bound([x]), self.bound([x]), self.polyexpr([x, y] + params, 1))
             return E.Integral(x, self.bound(params), self.bound(params), E.Op(r.choice(["+", "*"]), inner, self.polyexpr([x] + params, 1)))
-        if k < 0.95:
+        if k < 0.93:
             x = "x"
             return E.IndefiniteIntegral(x, self.polyexpr([x, x] + params, 2), tuple())
+        if k < 0.95 and params:      # derivative of a parameter integral
+            return E.Deriv(params[0], self.integral(params, 2, "x"))
+        if k < 0.97:                 # integral of a finite sum
+            body = E.Summation("k", E.Const(0), E.Const(r.choice([1, 2, 3])), self.polyexpr(["k", "x", "x"] + params, 2))
+            return E.Integral("x", self.bound(params), self.bound(params), body)
+        if k < 0.98 and params:      # integral of a derivative with respect to a parameter
+            return E.Integral("x", self.bound([]), self.bound([]), E.Deriv(params[0], self.polyexpr(["x"] + params + params, 2)))
         return self.ratexpr(params or ["x"], 3)
 
     FUNS1 = ["sin", "cos", "tan", "cot", "sec", "csc", "log", "exp", "sqrt", "abs", "atan", "asin", "acos", "sinh", "cosh", "f"]
@@ -565,6 +572,10 @@ DIRECTED = [
     ("IndefiniteIntegralIdentity", [], [], "INT x. 3 * x ^ 2 + 2 * x + 1", []),
     ("IntegrationByParts", [], ["x", "x ^ 2 / 2"], "INT x. x * x", []),
     ("DerivIntExchange", [], [], "D a. INT x:[0,1]. a ^ 2 * x", []),
+    ("DerivIntExchange", [], [], "D a. INT x:[a,1]. x", []),
+    ("DerivIntExchange", [], [], "D a. INT x:[0,2 * a]. a * x", []),
+    ("DerivIntExchange", [], [], "INT x:[0,1]. D a. a ^ 2 * x", []),
+    ("DerivIntExchange", [], [], "INT x:[1,3]. D a. a * x ^ 2 + x", []),
     ("IntSumExchange", [], [], "INT x:[0,1]. SUM(k, 0, 2, x ^ k)", []),
     ("Sub:SimplifyPower", [], [], "(x ^ 2) ^ 3 + (-x) ^ 2 + (-a - x) ^ 3", []),
     ("Sub:SimplifyPower", [], [], "(1 / x ^ 2) ^ 2 + 2 ^ (a + 1)", ["x != 0"]),
@@ -574,7 +585,17 @@ DIRECTED = [
 ]
 
 
+DIRECTED_NORM = ["2 * x * x ^ n + 1", "(x + 1) / 2", "3 * ((x + 1) * (x - 2)) + 1", "-1 * (INT x:[3,2]. 1)", "x * x / x ^ 2", "b / (a * a)",
+                 "INT x:[a - a,0]. x", "(a + b) ^ 2 / (a + b)", "x ^ 2 * x ^ (-2)", "[x ^ 2]_x=1,a", "D x. x ^ 2", "SUM(k, 1, 1, k ^ 2)",
+                 "INT x:[0,1]. INT y:[0,x]. x * y", "x ^ (1/2) * x ^ (1/2)", "(-x) ^ 2", "abs(x) * abs(x)", "0 * (1 / a)", "a - a"]
+
+
 def mode_directed(out):
+    for es in DIRECTED_NORM:
+        try:
+            norm_event(out, "directed", enc(quiet(parser.parse_expr, es)), [])
+        except Exception:
+            pass
     for name, ps, pes, es, cs in DIRECTED:
         try:
             e_j = enc(quiet(parser.parse_expr, es))
@@ -613,8 +634,16 @@ def mode_rand(outp, n, seed):
         cur_j = e_j
         for step in range(rnd.choice([1, 1, 2, 3])):
             name, ps, pe = rnd.choice(cands)
-            if step == 0 and e.ty == E.DERIV and rnd.random() < 0.7:
+            if step == 0 and e.ty == E.DERIV and e.body.ty == E.INTEGRAL and rnd.random() < 0.6:
+                name, ps, pe = "DerivIntExchange", [], []
+            elif step == 0 and e.ty == E.DERIV and rnd.random() < 0.7:
                 name, ps, pe = "DerivativeSimplify", [], []
+            elif step == 0 and e.ty == E.INTEGRAL and e.body.ty == E.DERIV and rnd.random() < 0.7:
+                name, ps, pe = "DerivIntExchange", [], []
+            elif step == 0 and e.ty == E.INTEGRAL and e.body.ty == E.SUMMATION and rnd.random() < 0.7:
+                name, ps, pe = "IntSumExchange", [], []
+            elif step == 0 and e.ty == E.INDEFINITEINTEGRAL and rnd.random() < 0.6:
+                name, ps, pe = "IndefiniteIntegralIdentity", [], []
             elif rnd.random() < 0.15:
                 name, ps, pe = "FullSimplify", [], []
             ev = apply_rule(out, "rand", name, ps, [enc(p) for p in pe], cur_j, conds, {"step": step})
